@@ -201,6 +201,14 @@ Definition alloc_child (s : fsys) (parent : nat) (name : str) (n : node) (bump_i
   ({| f_heap := add_child (f_heap s ++ [n]) parent name c;
       f_last_id := if bump_id then f_last_id s + 1 else f_last_id s; f_vols := f_vols s |}, c).
 
+(* file_remove_privs: a write or truncation by a user without CAP_FSETID clears the set-user-id bit, and the
+   set-group-id bit when the group-execute bit is set *)
+Definition drop_privs (u : user) (m : meta) : meta :=
+  if us_admin u then m
+  else
+    let a := N.ldiff (m_mode m) MODE_SETUID in
+    {| m_mode := if has (m_mode m) 8 then N.ldiff a MODE_SETGID else a; m_uid := m_uid m; m_gid := m_gid m |}.
+
 (* ---- system calls -------------------------------------------------------------------- *)
 (* mkdir(2): mode & 01777 (sticky allowed, set-id bits dropped) *)
 Definition k_mkdir (s : fsys) (sv : sview) (p : str) (perm : N) : fsys * pres :=
@@ -355,15 +363,17 @@ Definition k_link (phl : bool) (s : fsys) (sv : sview) (o n : str) : fsys * pres
               | Some _ => (s, SErr EEXIST)
               | None =>
                   if nmust then (s, SErr ENOENT)
-                  else if negb (kperm h np 3 u) then (s, SErr EACCES)
-                  else if node_is_dir h oc then (s, SErr EPERM)
                   else
+                    (* may_linkat (fs.protected_hardlinks) comes before may_create *)
                     let m := meta_of h oc in
+                    let isreg := match get h oc with Some (NFile _ _ _ _) => true | _ => false end in
                     let safe := us_admin u || Z.eqb (m_uid m) (us_uid u)
-                                || (negb (node_is_sym h oc) && negb (has (m_mode m) MODE_SETUID)
+                                || (isreg && negb (has (m_mode m) MODE_SETUID)
                                     && negb (has (m_mode m) MODE_SETGID && has (m_mode m) 8)
                                     && kperm h oc 6 u) in
                     if phl && negb safe then (s, SErr EPERM)
+                    else if negb (kperm h np 3 u) then (s, SErr EACCES)
+                    else if node_is_dir h oc then (s, SErr EPERM)
                     else
                       let h1 := add_child h np nname oc in
                       match get h oc with
@@ -447,7 +457,7 @@ Definition k_truncate (s : fsys) (sv : sview) (p : str) (size : Z) : fsys * pres
            match get (f_heap s) c with
            | Some (NFile d k i m) =>
                if negb (kperm (f_heap s) c 2 (v_user v)) then (s, SErr EACCES)
-               else (with_heap s (upd (f_heap s) c (NFile (truncate_data d size) k i m)), SOk)
+               else (with_heap s (upd (f_heap s) c (NFile (truncate_data d size) k i (drop_privs (v_user v) m))), SOk)
            | _ => (s, SErr EISDIR)
            end
        | _ => (s, SErr EFUEL)
@@ -489,6 +499,7 @@ Definition k_chown (follow : bool) (s : fsys) (sv : sview) (p : str) (uid gid : 
           let nuid := if Z.eqb uid (-1) then m_uid m else uid in
           let ngid := if Z.eqb gid (-1) then m_gid m else gid in
           let ok := us_admin u
+                    || (Z.eqb uid (-1) && Z.eqb gid (-1))
                     || (Z.eqb (m_uid m) (us_uid u)
                         && (Z.eqb uid (-1) || Z.eqb uid (m_uid m))
                         && (Z.eqb gid (-1) || Z.eqb gid (us_gid u))) in
@@ -566,7 +577,7 @@ Definition k_open (s : fsys) (sv : sview) (p : str) (flag perm : N) : fsys * (N 
         else (s0, inr c)
     | Some (NFile d k i m) =>
         if negb created && negb (kperm h0 c mask u) then (s0, inl EACCES)
-        else if trunc && negb created then (with_heap s0 (upd h0 c (NFile [] k i m)), inr c)
+        else if trunc && negb created then (with_heap s0 (upd h0 c (NFile [] k i (drop_privs u m))), inr c)
         else (s0, inr c)
     | _ => (s0, inl ELOOP)
     end in
@@ -754,7 +765,8 @@ Definition go_write_file (s : fsys) (sv : sview) (p : str) (data : list N) (perm
   | (_, inl e) => (s, SErr e)
   | (s1, inr c) =>
       match get (f_heap s1) c with
-      | Some (NFile _ k i m) => (with_heap s1 (upd (f_heap s1) c (NFile data k i m)), SOk)
+      | Some (NFile _ k i m) =>
+          (with_heap s1 (upd (f_heap s1) c (NFile data k i (match data with [] => m | _ => drop_privs v.(v_user) m end))), SOk)
       | _ => (s1, SErr EISDIR)
       end
   end.
@@ -825,7 +837,9 @@ Definition spec_step (phl : bool) (w : sworld) (c : call) : sworld * pres :=
       end
   | CGetwd _ =>
       let h := f_heap s in
-      if is_ancestor (S (length h)) h (v_root v) (v_root v) (sv_cwd sv)
+      (* os.Getwd starts with stat("."), which needs search permission on the working directory itself *)
+      if negb (kperm h (sv_cwd sv) 1 (v_user v)) then ro (SErr EACCES)
+      else if is_ancestor (S (length h)) h (v_root v) (v_root v) (sv_cwd sv)
       then ro (SStr (path_of (S (length h)) h (v_root v) (sv_cwd sv) []))
       else ro (SErr ENOENT)
   | CStat _ p => ro (k_stat true s sv p)
